@@ -83,20 +83,20 @@ Qed.
 Definition sel_of (ps : list dpath) (rs : list string) : list string :=
   map (fun p : dpath => d_str (snd p)) (filter (fun p => negb (withheld ps rs (fst p))) ps).
 
-Lemma presentation_facts token jwt L ds s1 cseg s3 a alg :
+Lemma presentation_facts token jwt L ds s1 cseg s3 alg :
   sd_jwt_parts token = (jwt, L, None) -> jwt_parts_m jwt = Val (s1, cseg, s3) ->
   o_claims O cseg = Ok (blind t) ->
-  jget "_sd_alg" (blind t) = JStr a -> parse_halg a = Some alg -> o_hash O alg = H ->
+  declared_halg (blind t) = Some alg -> o_hash O alg = H ->
   NoDup L -> (forall s, In s L -> In (H s) (alldigs t) -> In (H s) (hdigs t)) -> decode_all H (o_dec O) L = Ok ds ->
   exists ps, holder_presentation O token = Val {| h_jwt := jwt; h_redacted := []; h_paths := ps; h_kb := None |} /\
     forall rs, (forall s, In s (sel_of ps rs) -> In s L) /\ NoDup (sel_of ps rs) /\ exists ds', decode_all H (o_dec O) (sel_of ps rs) = Ok ds'.
 Proof.
-  intros Hp Hjp Hcl Ha Hh Ho HndL Hdecoy Hd.
+  intros Hp Hjp Hcl Ha Ho HndL Hdecoy Hd.
   destruct (restore_full_ok_paths H enc (o_dec O) show_nat hash_inj dec_enc t Hwf Hnd Hndh Hheight L ds HndL Hdecoy Hd)
     as (ps & Hps & Hpl & Hndp & _).
   exists ps. split.
   { unfold holder_presentation. rewrite sd_jwt_parts_m_total, Hp. cbn [obind]. rewrite Hjp. cbn [obind]. rewrite Hcl. cbn [of_res obind].
-    rewrite Ha. cbn [jstr_or_empty]. rewrite Hh, Ho, Hps. reflexivity. }
+    rewrite Ha, Ho, Hps. reflexivity. }
   intros rs.
   assert (Hstrs : map d_str ds = L) by (eapply decode_all_strs; eauto).
   assert (Hsub : forall s, In s (sel_of ps rs) -> In s L).
@@ -127,10 +127,10 @@ Proof.
   unfold selected. rewrite F2, F4. reflexivity.
 Qed.
 
-Theorem present_redact_build_verify token jwt L ds s1 cseg s3 hdr0 a alg (rs : list string) (E : build_env) kbpol :
+Theorem present_redact_build_verify token jwt L ds s1 cseg s3 hdr0 alg (rs : list string) (E : build_env) kbpol :
   sd_jwt_parts token = (jwt, L, None) -> jwt_parts_m jwt = Val (s1, cseg, s3) ->
   o_claims O cseg = Ok (blind t) -> o_jwt O jwt = Val (hdr0, blind t) ->
-  jget "_sd_alg" (blind t) = JStr a -> parse_halg a = Some alg -> o_hash O alg = H ->
+  declared_halg (blind t) = Some alg -> o_hash O alg = H ->
   jhas "cnf" (blind t) = false ->
   NoDup L -> (forall s, In s L -> In (H s) (alldigs t) -> In (H s) (hdigs t)) -> decode_all H (o_dec O) L = Ok ds ->
   Forall (fun x => contains tilde x = false) (jwt :: L) ->
@@ -141,8 +141,8 @@ Theorem present_redact_build_verify token jwt L ds s1 cseg s3 hdr0 a alg (rs : l
     (forall s, In s (selected h) -> In s L) /\
     verifier_verify O (presentation_prefix jwt (selected h)) kbpol = Val (hdr0, drop_alg (proj (ownS H (selected h)) t)).
 Proof.
-  intros Hp Hjp Hcl Hj Ha Hh Ho Hcnf HndL Hdecoy Hd Htil.
-  destruct (presentation_facts token jwt L ds s1 cseg s3 a alg Hp Hjp Hcl Ha Hh Ho HndL Hdecoy Hd) as (ps & Hpres & Hsel).
+  intros Hp Hjp Hcl Hj Ha Ho Hcnf HndL Hdecoy Hd Htil.
+  destruct (presentation_facts token jwt L ds s1 cseg s3 alg Hp Hjp Hcl Ha Ho HndL Hdecoy Hd) as (ps & Hpres & Hsel).
   eexists. split; [exact Hpres|]. cbn zeta.
   destruct (redact_all_fields rs {| h_jwt := jwt; h_redacted := []; h_paths := ps; h_kb := None |}) as (F1 & F2 & F3 & F4).
   cbn [h_jwt h_paths h_kb h_redacted app] in F1, F2, F3, F4.
@@ -156,7 +156,7 @@ Proof.
     rewrite Forall_forall in HL. auto. }
   assert (Hparts : sd_jwt_parts (presentation_prefix jwt (sel_of ps rs)) = (jwt, sel_of ps rs, None)).
   { rewrite prefix_is_serialise, sd_jwt_parts_serialise by (assumption || reflexivity). reflexivity. }
-  apply (verifier_verify_complete O H enc hash_inj dec_enc t Hwf Hnd Hndh Hheight _ kbpol jwt (sel_of ps rs) ds' hdr0 a alg); auto.
+  apply (verifier_verify_complete O H enc hash_inj dec_enc t Hwf Hnd Hndh Hheight _ kbpol jwt (sel_of ps rs) ds' hdr0 alg); auto.
   unfold jhas in Hcnf. unfold jget. destruct (blind t) as [| | | | |kvs]; try reflexivity.
   destruct (obj_get "cnf" kvs); [discriminate|reflexivity].
 Qed.
@@ -168,10 +168,10 @@ Proof.
   rewrite prefix_is_serialise. unfold serialise. rewrite !append_assoc_. reflexivity.
 Qed.
 
-Theorem present_redact_bind_build_verify token jwt L ds s1 cseg s3 hdr0 a alg (rs : list string) (E : build_env) aud jalg kb n e :
+Theorem present_redact_bind_build_verify token jwt L ds s1 cseg s3 hdr0 alg (rs : list string) (E : build_env) aud jalg kb n e :
   sd_jwt_parts token = (jwt, L, None) -> jwt_parts_m jwt = Val (s1, cseg, s3) ->
   o_claims O cseg = Ok (blind t) -> o_jwt O jwt = Val (hdr0, blind t) ->
-  jget "_sd_alg" (blind t) = JStr a -> parse_halg a = Some alg -> o_hash O alg = H ->
+  declared_halg (blind t) = Some alg -> o_hash O alg = H ->
   jhas "cnf" (blind t) = true -> is_null (jget "cnf" (blind t)) = false ->
   jget "kty" (jget "cnf" (blind t)) = JStr "RSA" -> jget "e" (jget "cnf" (blind t)) = JStr e -> jget "n" (jget "cnf" (blind t)) = JStr n ->
   NoDup L -> (forall s, In s L -> In (H s) (alldigs t) -> In (H s) (hdigs t)) -> decode_all H (o_dec O) L = Ok ds ->
@@ -185,8 +185,8 @@ Theorem present_redact_bind_build_verify token jwt L ds s1 cseg s3 hdr0 a alg (r
   holder_build O E h = Val (prefix ++ kb)%string /\
   verifier_verify O (prefix ++ kb)%string true = Val (hdr0, drop_alg (proj (ownS H (selected h)) t)).
 Proof.
-  intros Hp Hjp Hcl Hj Ha Hh Ho Hcnf Hnn Hkty He Hn HndL Hdecoy Hd Htil ps Hpres h prefix Hsign Hkbne Hkbt Hokb.
-  destruct (presentation_facts token jwt L ds s1 cseg s3 a alg Hp Hjp Hcl Ha Hh Ho HndL Hdecoy Hd) as (ps' & Hpres' & Hsel).
+  intros Hp Hjp Hcl Hj Ha Ho Hcnf Hnn Hkty He Hn HndL Hdecoy Hd Htil ps Hpres h prefix Hsign Hkbne Hkbt Hokb.
+  destruct (presentation_facts token jwt L ds s1 cseg s3 alg Hp Hjp Hcl Ha Ho HndL Hdecoy Hd) as (ps' & Hpres' & Hsel).
   rewrite Hpres in Hpres'. injection Hpres' as <-.
   destruct (redact_all_fields rs {| h_jwt := jwt; h_redacted := []; h_paths := ps; h_kb := None |}) as (F1 & F2 & F3 & F4).
   cbn [h_jwt h_paths h_kb h_redacted app] in F1, F2, F3, F4.
@@ -197,7 +197,7 @@ Proof.
   { assert (Hjwt : h_jwt h = jwt) by (unfold h; cbn [holder_key_binding h_jwt]; exact F1).
     assert (Hkb : h_kb h = Some (aud, jalg)) by reflexivity.
     unfold holder_build. rewrite Hjwt, Hjp. cbn [obind]. rewrite Hcl. cbn [of_res obind]. rewrite Hcnf, Hkb. cbn [andb].
-    rewrite Ha. cbn [jstr_or_empty]. rewrite Hh, Ho. change (presentation_prefix jwt (selected h)) with prefix.
+    rewrite Ha, Ho. change (presentation_prefix jwt (selected h)) with prefix.
     rewrite Hsign. reflexivity. }
   split; [exact Hbuild|].
   assert (Htil' : Forall (fun x => contains tilde x = false) (jwt :: sel_of ps rs)).
@@ -210,14 +210,14 @@ Proof.
   { rewrite drop_kb_serialise by assumption. symmetry. apply prefix_is_serialise. }
   unfold verifier_verify.
   assert (Hraw : verifier_verify_raw O (serialise jwt (sel_of ps rs) kb) true = Val (hdr0, blind t, sel_of ps rs)).
-  { apply verifier_verify_raw_iff. exists jwt, (Some kb), a, alg. repeat split; try assumption.
+  { apply verifier_verify_raw_iff. exists jwt, (Some kb), alg. repeat split; try assumption.
     right. split; [unfold kb_required; rewrite Hnn; reflexivity|].
     exists kb, (kb_header jalg), (kb_claims aud (e_nonce E) (e_iat E) (H (presentation_prefix jwt (sel_of ps rs)))), (H (presentation_prefix jwt (sel_of ps rs))).
     split; [reflexivity|]. split; [reflexivity|]. split.
     - apply verify_kb_iff. exists n, e. repeat split; try assumption.
       + unfold prefix in Hokb. rewrite Hselq in Hokb. exact Hokb.
     - split; [reflexivity|]. rewrite Hdrop, Ho. reflexivity. }
-  rewrite Hraw. cbn [obind]. unfold restore_and_strip. rewrite Ha. cbn [jstr_or_empty]. rewrite Hh, Ho.
+  rewrite Hraw. cbn [obind]. unfold restore_and_strip. rewrite Ha, Ho.
   destruct (restore_full_ok H enc (o_dec O) show_nat hash_inj dec_enc t Hwf Hnd Hndh Hheight (sel_of ps rs) ds' Hndsel) as [ps2 Hok]; [|assumption|].
   { intros s Hs. apply Hdecoy. apply Hsub. assumption. }
   rewrite Hok. cbn [of_res obind fst snd]. rewrite (remove_digests_view H enc t Hwf). reflexivity.
